@@ -443,8 +443,13 @@ fn failing_and_slow_device(rep: &mut Report) {
         let (pw, pr) = new_nocopy_stream::<String>();
         if let Ok(mut psink) = NoCopyFileSink::new(pr, &ppath, Mode::Overwrite) {
             let mut want = 0usize;
-            for len in [1usize, 100, 8190, 8191, 8192, 8193, 20_000, 3, 65_536, 7] {
-                let rec: String = (0..len).map(|i| (b'a' + (i % 26) as u8) as char).collect();
+            let mut want_bytes: Vec<u8> = Vec::new();
+            for len in [1usize, 100, 8190, 8191, 8192, 8193, 20_000, 3, 65_536, 7, 12] {
+                // every third record holds text outside ASCII (its bytes are its UTF-8 form)
+                let rec: String = if len % 3 == 0 { (0..len).map(|i| ['a', '\u{e9}', '\u{b0}', '\u{20ac}', 'z'][i % 5]).collect() } else { (0..len).map(|i| (b'a' + (i % 26) as u8) as char).collect() };
+                let len = rec.len();
+                want_bytes.extend_from_slice(rec.as_bytes());
+                want_bytes.push(10);
                 pw.push(rec, &[]);
                 let r = catch(|| psink.work().map(|_| ()).map_err(|e| format!("{e}")));
                 want += len + 1;
@@ -462,6 +467,11 @@ fn failing_and_slow_device(rep: &mut Report) {
                     );
                     break;
                 }
+            }
+            match std::fs::read(&ppath) {
+                Ok(b) if b == want_bytes => {}
+                Ok(b) if b.len() == want_bytes.len() => rep.violation("C17|per-call|packet|file-content", "the packet file has the right length but not the records' UTF-8 bytes followed by a newline each".to_string(), json!({"part": "per-call", "sink": "packet"})),
+                _ => {} // a length mismatch was reported by the per-call check above
             }
         }
         // sample sink
